@@ -16,6 +16,11 @@
 //!   offset: slots in block coordinates + offset of every element, against `packASlots` /
 //!   `packBSlots` / `packAOffset` / `packBOffset` (T3 tie), plus a naive-loop oracle.
 //!
+//! * `pblock a|b <t> <nm> <K> <bs> …` — `prepack_a` / `prepack_b` with a real kernel on an
+//!   index-valued operand, then `PackedMatrixBase::block` (verif hook) for every block and depth
+//!   block: span, total length and buffer contents against `prepackBase.block` / `prepackABuf` /
+//!   `prepackBBuf`.
+//!
 //! and uncompared `# float …` / `# batch …` lines for real-valued and batched cases.
 //!
 //! Independent oracle (PROPFAIL), evaluated on the implementation's output for every case: naive
@@ -697,6 +702,55 @@ fn run_pack(out: &mut Out, kind: char, t: usize, mat: (usize, usize), lay: u8, r
     out.case(&req, &ans, fail.as_deref(), true);
 }
 
+/// Prepacked block lookup tie: `prepack_a` / `prepack_b` of an index-valued operand with a real
+/// kernel, then `PackedMatrixBase::block` (verif hook) for every block of size `bs` and every
+/// depth block: span (start, len, stride) in elements, total length and the buffer contents.
+fn run_pblock(out: &mut Out, kerns: &[Kern], kind: char, kern: usize, nm: usize, k: usize, bs_mult: usize, lay: u8) {
+    let kr = &kerns[kern];
+    let t = if kind == 'a' { kr.mr } else { kr.nr };
+    let bs = bs_mult * t;
+    let req = format!("pblock {kind} {t} {nm} {k} {bs} kern={} lay={lay}", kr.name);
+    out.bucket(&format!("pblock {kind} kern={}", kr.name));
+    let kc = k.min(256).max(1);
+    let n_depth = k.div_ceil(kc);
+    out.bucket(&format!("pblock depth-blocks={n_depth} tail={}", k % kc != 0));
+    let res = hcommon::catch(|| {
+        let (rows, cols) = if kind == 'a' { (nm, k) } else { (k, nm) };
+        let data: Vec<f32> = (0..rows * cols).map(|i| (i + 1) as f32).collect();
+        let (buf, rstr, cstr) = lay_out(&data, rows, cols, lay, -1.0);
+        let v = view(&buf, rows, cols, rstr, cstr);
+        let mut spans = vec![];
+        let (bytes, total): (Vec<u8>, usize);
+        if kind == 'a' {
+            let pm = kr.exec.prepack_a(v);
+            for i in 0..nm.div_ceil(bs) {
+                for idx in 0..n_depth {
+                    let (st, len, ps, _) = pm.verif_block_span(i * bs..(i * bs + bs).min(nm), idx);
+                    spans.push(format!("{},{},{}", st / 4, len / 4, ps / 4));
+                }
+            }
+            bytes = pm.verif_bytes().to_vec();
+            total = bytes.len() / 4;
+        } else {
+            let pm = kr.exec.prepack_b(v);
+            for i in 0..nm.div_ceil(bs) {
+                for idx in 0..n_depth {
+                    let (st, len, ps, _) = pm.verif_block_span(i * bs..(i * bs + bs).min(nm), idx);
+                    spans.push(format!("{},{},{}", st / 4, len / 4, ps / 4));
+                }
+            }
+            bytes = pm.verif_bytes().to_vec();
+            total = bytes.len() / 4;
+        }
+        let vals: Vec<i64> = bytes.chunks_exact(4).map(|c| f32::from_le_bytes([c[0], c[1], c[2], c[3]]) as i64).collect();
+        format!("total={total} spans={} buf={}", spans.join(";"), hcommon::join(vals.iter(), ","))
+    });
+    match res {
+        Ok(ans) => out.case(&req, &ans, None, true),
+        Err(p) => out.case(&req, &format!("panic:{p}"), Some(&format!("prepack/block panicked: {p}")), true),
+    }
+}
+
 fn pick_dim(rng: &mut Rng, max: usize, specials: &[usize]) -> usize {
     match rng.below(10) {
         0 => 0,
@@ -850,6 +904,23 @@ fn main() {
         let cs = if rng.chance(1, 2) { 0 } else if kind == 'b' && rng.chance(1, 2) { t * (1 + rng.usize_below(2)) } else { rng.usize_below(7) };
         let mat = (rs + rows + rng.usize_below(3), cs + cols + rng.usize_below(3));
         run_pack(&mut out, kind, t, mat, rng.below(5) as u8, rs, rs + rows, cs, cs + cols);
+    }
+
+    // 2c. prepacked block lookup (K around / beyond the depth block so that a short tail block exists).
+    let n_pblock = if args.thorough { 400 } else { 80 };
+    for _ in 0..n_pblock {
+        let kind = if rng.chance(1, 2) { 'a' } else { 'b' };
+        let kern = rng.usize_below(kerns.len());
+        let t = if kind == 'a' { kerns[kern].mr } else { kerns[kern].nr };
+        let nm = 1 + rng.usize_below(3 * t + 2);
+        let k = match rng.below(4) {
+            0 => 1 + rng.usize_below(40),
+            1 => *rng.pick(&[255usize, 256, 257, 258]),
+            2 => 257 + rng.usize_below(300),
+            _ => *rng.pick(&[511usize, 512, 513, 520, 600]),
+        };
+        let k = if nm * k > 12000 { k.min(300) } else { k };
+        run_pblock(&mut out, &kerns, kind, kern, nm, k, 1 + rng.usize_below(3), rng.below(5) as u8);
     }
 
     // 3. batched calls.
